@@ -20,6 +20,7 @@ import Driver.Sasl
 import Driver.Txn
 import Driver.Typed
 import Driver.DetachHold
+import Driver.IoRead
 
 structure DState where
   sess : Amqp.Session.St := Amqp.Session.init 0 0 0
@@ -84,6 +85,7 @@ def handle (st : DState) (line : String) : DState × String :=
   | "T" :: ws => (st, (Driver.Txn.step ws).getD "bad-op")
   | "G" :: ws => (st, (Driver.Typed.step ws).getD "bad-op")
   | "D" :: ws => (st, (Driver.DetachHold.step ws).getD "bad-op")
+  | "I" :: ws => (st, (Driver.IoRead.step ws).getD "bad-op")
   | "N" :: ws =>
     match Driver.Limits.step st.limits ws with
     | some (s, out) => ({ st with limits := s }, out)
